@@ -34,6 +34,16 @@ def main():
     tier = "thorough" if a.tier == "thorough" else "quick"
     seed = int(os.environ.get("VERIF_SEED", "0") or 0)
     mod = importlib.import_module(f"props.{a.prop}")
+    # an exception while the oracle evaluates the implementation's outputs (wrong shapes, missing keys, ...) is a failing
+    # case of the property oracle, not an infrastructure failure: on the unchanged tree no oracle raises
+    _orig_run_case = mod.run_case
+
+    def _guarded_run_case(kind, params):
+        try:
+            return _orig_run_case(kind, params)
+        except Exception as e:  # noqa: BLE001
+            return [f"evaluating the property on the implementation's outputs raised {type(e).__name__}: {e}"]
+    mod.run_case = _guarded_run_case
 
     if a.replay:
         with open(a.replay) as f:
@@ -89,7 +99,13 @@ def main():
     tie_broken = bool(lean.failed or lean.gen_broken or drv_error or ctx.corr_disagreements)
     # ---- 5. failing-input search on the implementation --------------------------------------
     focus = [(k, p) for k, p, _ in ctx.corr_disagreements[:20]]
-    mod.search(ctx, boost=3 if tie_broken else 1, focus=focus)
+    search_error = None
+    try:
+        mod.search(ctx, boost=3 if tie_broken else 1, focus=focus)
+    except Exception as e:  # noqa: BLE001
+        search_error = f"failing-input search crashed: {type(e).__name__}: {e}"
+        log(traceback.format_exc())
+        tie_broken = True
     log(f"[{a.prop}] search: {ctx.search_evals} oracle evaluations, {len(ctx.failures)} failing "
         f"({ctx.elapsed():.0f}s)")
     # ---- 6. verdict ------------------------------------------------------------------------
@@ -107,7 +123,7 @@ def main():
     rc = 0
     violations = 0
     broken = {
-        "proofs": lean.failed, "fragments": lean.gen_broken, "driver": drv_error,
+        "proofs": lean.failed, "fragments": lean.gen_broken, "driver": drv_error, "search": search_error,
         "correspondence": [{"kind": k, "params": p, "messages": m}
                            for k, p, m in ctx.corr_disagreements[:5]],
     }
